@@ -12,12 +12,12 @@ tot=k=0
 for f in sorted(glob.glob('mutants/results/C*.json')):
     pid=os.path.basename(f)[:-5]
     for r in json.load(open(f)):
-        eq = r['name'].startswith(('EQUIVALENT','C07_DOMAIN'))
+        eq = r['name'].startswith('EQUIVALENT') or '_DOMAIN_' in r['name']
         rows.append((pid, r['name'], r.get('status'), r.get('seconds'), r.get('suite') or '', '; '.join(o.split(':')[0] for o in r.get('oracles',[])[:2])))
         if not eq:
             tot+=1; k+= r.get('status')=='killed'
 with open('mutants/SUMMARY.md','w') as f:
-    f.write("# Sensitivity (mutation) results, quick tier, VERIF_SEED=1\n\n%d of %d non-equivalent hand-written mutants killed. Mutants marked EQUIVALENT / C07_DOMAIN survive by design (see their note in mutants/Cxx.json).\n`suite-green` = the repository's own 312 tests still pass with the mutant (the interesting class).\n\n| property | mutant | result | s | repo suite | first failing oracles |\n|---|---|---|---|---|---|\n" % (k, tot))
+    f.write("# Sensitivity (mutation) results, quick tier, VERIF_SEED=1\n\n%d of %d non-equivalent hand-written mutants killed. Mutants marked EQUIVALENT / Cxx_DOMAIN (the broken clause belongs to property Cxx, whose own list has the same mutant killed) survive by design (see their note in mutants/Cxx.json).\n`suite-green` = the repository's own 312 tests still pass with the mutant (the interesting class).\n\n| property | mutant | result | s | repo suite | first failing oracles |\n|---|---|---|---|---|---|\n" % (k, tot))
     for r in rows:
         f.write("| %s | %s | %s | %s | %s | %s |\n" % r)
 print(k, "of", tot, "killed")
